@@ -23,14 +23,14 @@ const (
 
 // Oblig is one rule instance: a construct of /repo to which a rule was applied.
 type Oblig struct {
-	Rule    string `json:"rule"`              // e.g. C09-R4
-	Key     string `json:"key"`               // stable id: rule|function|construct (no line numbers)
-	Func    string `json:"function"`          // enclosing function
-	Pos     string `json:"pos"`               // file:line (diagnostic only)
-	Desc    string `json:"what"`              // the instance, in words
-	Verdict string `json:"verdict"`           // ok | violation | undecided
-	Detail  string `json:"detail,omitempty"`  // path / reason for a non-ok verdict
-	Known   bool   `json:"known,omitempty"`   // matched an entry of known_findings.txt
+	Rule    string `json:"rule"`             // e.g. C09-R4
+	Key     string `json:"key"`              // stable id: rule|function|construct (no line numbers)
+	Func    string `json:"function"`         // enclosing function
+	Pos     string `json:"pos"`              // file:line (diagnostic only)
+	Desc    string `json:"what"`             // the instance, in words
+	Verdict string `json:"verdict"`          // ok | violation | undecided
+	Detail  string `json:"detail,omitempty"` // path / reason for a non-ok verdict
+	Known   bool   `json:"known,omitempty"`  // matched an entry of known_findings.txt
 }
 
 // Result accumulates what one property check covered.
